@@ -23,7 +23,16 @@ def fold_order(P, rep, rule="FOLD.order"):
             recv = sc(c["c"][0]["c"][0])
             args = [norm.render(P, a) for a in c["c"][1:]]
             ok = astq.is_ref_to(recv, L["c"][0]["r"]) or norm.render(P, recv).startswith(L["c"][0]["n"])
-            ok = ok and args[-1] == "output" and args[-2] == "entry_in_output" and args[3] == "properties_local"
+            # roles, not spellings: the returned output buffer, and two locals of the evaluator built before the loop
+            # (the slot table and the request list handed to the features)
+            an = [sc(a) for a in c["c"][1:]]
+            inloop = {v["r"] for v in F3.walk(L) if v.get("k") == "VarDecl"}
+
+            def is_outer_local(a):
+                return a is not None and a.get("k") == "DeclRefExpr" and P.d(a["r"]).get("storage") == "local" and a["r"] not in F3.params and a["r"] not in inloop
+            returned = {sc(r_["c"][0]).get("r") for r_ in F3.walk() if r_.get("k") == "ReturnStmt" and r_.get("c") and sc(r_["c"][0]) is not None}
+            ok = ok and len(an) >= 4 and is_outer_local(an[-1]) and an[-1]["r"] in returned \
+                and is_outer_local(an[-2]) and is_outer_local(an[3]) and len({an[-1]["r"], an[-2]["r"], an[3]["r"]}) == 3
             # nothing conditional around the call
             ok = ok and not [a for a in F3.ancestors(c) if a.get("k") in ("IfStmt", "SwitchStmt") and any(y is a for y in F3.walk(L))]
         if ok:
